@@ -485,6 +485,24 @@ Proof.
     + unfold jsrun_raw, jsrun_text. cbn [app]. rewrite join_cons by discriminate. reflexivity.
 Qed.
 
+Lemma jsrun_sub_ok : forall p bind g bg a r c,
+  memN dollar p = false -> memN dollar bind = false ->
+  (forall x, g = Some x -> memN dollar x = false) -> (forall x, bg = Some x -> memN dollar x = false) ->
+  memN dollar a = false -> memN dollar r = false -> memN dollar c = false ->
+  sub_ok (jsrun_text p bind g bg a r c) = true.
+Proof.
+  intros p bind g bg a r c Dp Db Dg Dbg Da Dr Dc. unfold sub_ok. apply andb_true_iff. split.
+  - apply negb_true_iff. unfold jsrun_text. apply memN_join. reflexivity.
+    rewrite !forallb_app.
+    assert (G : forallb (fun w => negb (memN dollar w)) (optw (s "-g") g) = true).
+    { destruct g as [x|]; simpl; auto. rewrite (Dg x eq_refl). reflexivity. }
+    assert (BG : forallb (fun w => negb (memN dollar w)) (optw (s "-B") bg) = true).
+    { destruct bg as [x|]; simpl; auto. rewrite (Dbg x eq_refl). reflexivity. }
+    apply andb_true_iff; split; [|apply andb_true_iff; split; [exact G|apply andb_true_iff; split; [exact BG|]]];
+      simpl forallb; rewrite ?Dp, ?Db, ?Da, ?Dr, ?Dc; reflexivity.
+  - unfold jsrun_text. cbn [app]. rewrite join_cons by discriminate. reflexivity.
+Qed.
+
 (** * [get_scheduler_command], for any launcher function *)
 Section SchedCmdGen.
   Variable c : case.
@@ -723,6 +741,16 @@ Section LsfStep.
     unfold jsrun_raw in R. simpl fst in R. simpl snd in R. rewrite !opair_raw, !opair_ow in R.
     rewrite <- Eg, <- Ebg. unfold jt. rewrite ER.
     apply R; auto using printed_word, opair_printed.
+  Qed.
+  Lemma jt_sub_ok : forall pv, memN dollar (render pv) = false -> sub_ok (jt pv) = true.
+  Proof.
+    intros pv D. unfold jt.
+    destruct rpn_facts as [_ [[_ _ _ Sr _] _]]. destruct tprs_facts as [_ [[_ _ _ St _] _]].
+    destruct bind_facts as [[_ _ _ Sb _] _]. destruct gpus_facts as [_ Sg]. destruct bg_facts as [_ Sbg].
+    destruct cpus_facts as [[_ _ _ Sc _] _].
+    apply jsrun_sub_ok; auto.
+    - intros x E. destruct (Sg x E). auto.
+    - intros x E. destruct (Sbg x E). auto.
   Qed.
 End LsfStep.
 
@@ -1010,3 +1038,305 @@ Section LsfScript.
     - rewrite lsf_exec_shell. apply (shell_safe (c_be c)). auto.
   Qed.
 End LsfScript.
+
+Definition lsf_expect (n q bk : str) (ow orv : option str) (k : rkey) : option str :=
+  match k with
+  | RNodes => Some n | RQueue => Some q | RBank => Some bk | RWalltime => ow | RReservation => orv
+  | _ => None
+  end.
+
+Lemma rget_lsf_pairs : forall st w nv qv bv rv_ k, In k (RWalltime :: lsf_header_keys) ->
+  rget k (lsf_pairs st w nv qv bv rv_) =
+    lsf_expect (render nv) (render qv) (render bv) (match w with [] => None | _ => Some w end) (option_map render rv_) k
+  /\ (count_key k (lsf_pairs st w nv qv bv rv_) <= 1)%nat.
+Proof.
+  intros st w nv qv bv rv_ k I. unfold lsf_pairs.
+  destruct (match w with [] => None | _ => Some w end) as [ww|]; destruct (option_map render rv_) as [rr|];
+    simpl in I; repeat (destruct I as [I|I]; [subst k; split; [reflexivity|unfold count_key; simpl; lia]|]);
+    destruct I.
+Qed.
+
+Section LsfScript2.
+  Variable c : case.
+  Hypothesis HP : H15_parts c.
+  Hypothesis LP : lsf_parts c.
+  Hypothesis BP : batch_parts (c_be c) (c_batch c).
+  Hypothesis BE : c_be c = Lsf.
+  Hypothesis NK6b : K6_lsf_header c = false.
+  Hypothesis NK6c : K6_lsf_nodes_only c = false.
+  Let st := c_step c.
+  Let b := c_batch c.
+  Variables vh vb vq : val.
+  Hypothesis Hh : lookup (s "host") (b_kw b) = Some vh.
+  Hypothesis Hb : lookup (s "bank") (b_kw b) = Some vb.
+  Hypothesis Hq : lookup (s "queue") (b_kw b) = Some vq.
+  Hypothesis Sb : truthy vb = true /\ safe_tok (render vb) = true.
+  Hypothesis Sq : truthy vq = true /\ safe_tok (render vq) = true.
+  Variable w : str.
+  Hypothesis Hw : lsf_walltime (lsf_w0 st) = Ok w.
+  Hypothesis Hw_nil : w = [] -> decl (st_res st) (s "walltime") = None.
+  Hypothesis Hw_safe : w <> [] -> safe_word w.
+  Hypothesis Hw_ok : lsf_walltime_ok (effective b st RWalltime) (match w with [] => None | _ => Some w end) = true.
+  Hypothesis SC : schedulable st = true.
+
+  Let lines := lsf_lines b st vh vb vq w.
+  Let qv := match decl (st_res st) (s "queue") with Some v => v | None => vq end.
+  Let bv := match decl (st_res st) (s "bank") with Some v => v | None => vb end.
+  Let rv_ := match decl (st_res st) (s "reservation") with Some v => Some v | None => decl (b_kw b) (s "reservation") end.
+
+  Lemma eff_lsf : forall k, In k lsf_header_keys ->
+    lsf_expect (render (lsf_nodes b st)) (render qv) (render bv) (match w with [] => None | _ => Some w end)
+               (option_map render rv_) k = effective_lsf b st k.
+  Proof.
+    intros k I. simpl in I.
+    assert (NX : effective b st RExclusive = None /\ effective b st RQos = None).
+    { unfold K6_lsf_header in NK6b. rewrite BE in NK6b. simpl backend_eqb in NK6b. fold st b in NK6b.
+      destruct (effective b st RExclusive); destruct (effective b st RQos); try discriminate NK6b; auto. }
+    destruct NX as [NX NQ].
+    repeat (destruct I as [I|I]; [subst k; simpl lsf_expect; simpl effective_lsf|]); auto.
+    - (* nodes *)
+      unfold effective. simpl batch_level. cbv iota. rewrite !declared_render by discriminate.
+      change (key_name RNodes) with (s "nodes"). unfold lsf_nodes.
+      destruct (decl (st_res st) (s "nodes")) as [v|]; auto. unfold get_default, decl.
+      pose proof (lp_bnodes c LP) as BN. fold b in BN.
+      destruct (lookup (s "nodes") (b_kw b)) as [v|]; auto. rewrite BN. reflexivity.
+    - (* queue *)
+      unfold effective. simpl batch_level. cbv iota. rewrite !declared_render by discriminate.
+      change (key_name RQueue) with (s "queue"). unfold qv.
+      destruct (decl (st_res st) (s "queue")) as [v|]; auto. unfold decl. rewrite Hq.
+      destruct Sq as [T _]. rewrite T. reflexivity.
+    - (* bank *)
+      unfold effective. simpl batch_level. cbv iota. rewrite !declared_render by discriminate.
+      change (key_name RBank) with (s "bank"). unfold bv.
+      destruct (decl (st_res st) (s "bank")) as [v|]; auto. unfold decl. rewrite Hb.
+      destruct Sb as [T _]. rewrite T. reflexivity.
+    - (* reservation *)
+      unfold effective. simpl batch_level. cbv iota. rewrite !declared_render by discriminate.
+      change (key_name RReservation) with (s "reservation"). unfold rv_.
+      destruct (decl (st_res st) (s "reservation")) as [v|]; auto.
+    - destruct I.
+  Qed.
+
+  Lemma procs_nodollar : memN dollar (render (run_val st (s "procs"))) = false.
+  Proof.
+    destruct (total_run_val st RTasks ltac:(discriminate) (hp_procs c HP)) as [_ [_ [_ D]]].
+    change (key_name RTasks) with (s "procs") in D. unfold tval in D.
+    destruct (truthy (run_val st (s "procs"))) eqn:T.
+    - destruct (digits_word _ (D _ eq_refl)). auto.
+    - destruct (run_val st (s "procs")) as [n|t0|bb|]; simpl in T.
+      + apply negb_false_iff in T. apply N.eqb_eq in T. subst n. reflexivity.
+      + destruct t0; try discriminate. reflexivity.
+      + destruct bb; try discriminate. reflexivity.
+      + reflexivity.
+  Qed.
+
+  Lemma finl_start : forall ps, pieces_wf ps = true -> starts_cmd ps = true ->
+    exists c0 t, finl c ps ++ [nl] = c0 :: t /\ cmd_start c0 = true.
+  Proof.
+    intros ps W S. destruct ps as [|p r]. discriminate S. unfold finl. rewrite map_cons, segs_text_cons.
+    destruct p as [t0| |f]; simpl seg_text.
+    - destruct t0 as [|c0 t0]. discriminate S. exists c0. eexists. split. rewrite <- !app_assoc. reflexivity. exact S.
+    - unfold bsub_lsf, jt, jsrun_text. cbn [app]. rewrite join_cons by discriminate.
+      exists 106. eexists. split. rewrite <- !app_assoc. reflexivity. reflexivity.
+    - unfold tsub_lsf, jt, jsrun_text. cbn [app]. rewrite join_cons by discriminate.
+      exists 106. eexists. split. rewrite <- !app_assoc. reflexivity. reflexivity.
+  Qed.
+
+  Lemma lsf_script_good : forall ps, pieces_wf ps = true -> starts_cmd ps = true ->
+    (has_bare ps = true -> has_bare (c_cmd c) || has_bare (c_restart c) = true) ->
+    lsf_script_ok c ps (join [nl] lines ++ nl :: nl :: finl c ps ++ [nl]) = true.
+  Proof.
+    intros ps W S HBp. destruct (finl_start ps W S) as [c0 [t [E CS]]]. rewrite E.
+    destruct (lsf_pairs_read c HP LP BP vh vb vq) with (w := w) as [RLl CLl]; auto.
+    fold st b in RLl, CLl. fold lines in RLl, CLl. unfold CLb, CLg in CLl.
+    assert (NE : lines <> []) by (unfold lines, lsf_lines; discriminate).
+    assert (SB : script_body (join [nl] lines ++ nl :: nl :: c0 :: t) = c0 :: t)
+      by (apply script_body_eq; auto).
+    assert (RD : read_bsub_all (join [nl] lines ++ nl :: nl :: c0 :: t)
+                 = lsf_pairs st w (lsf_nodes b st) qv bv rv_).
+    { unfold read_bsub_all. change (s "#BSUB") with Mb.
+      rewrite (script_directives Mb bsub_table lines c0 t NE CLl CS). exact RLl. }
+    unfold lsf_script_ok. rewrite SB. fold st b.
+    apply andb_true_iff; split; [apply andb_true_iff; split; [apply andb_true_iff; split;
+      [apply andb_true_iff; split; [apply andb_true_iff; split|]|]|]|].
+    - apply str_eqb_eq.
+      rewrite (first_line_eq _ c0 t NE CLl (lsf_shebang_line b) _ eq_refl). reflexivity.
+      unfold lsf_shebang_line. apply notin_app. simpl. intros [X|[X|[]]]; discriminate X.
+      apply (shell_safe (c_be c)); auto.
+    - apply forallb_forall. intros k I. unfold read_bsub. rewrite RD.
+      destruct (rget_lsf_pairs st w (lsf_nodes b st) qv bv rv_ k (or_intror I)) as [R _]. rewrite R.
+      rewrite eff_lsf by auto. apply opt_eqb_refl.
+    - unfold read_bsub. rewrite RD.
+      destruct (rget_lsf_pairs st w (lsf_nodes b st) qv bv rv_ RWalltime (or_introl eq_refl)) as [R _]. rewrite R.
+      exact Hw_ok.
+    - apply forallb_forall. intros k I. rewrite RD. apply Nat.leb_le.
+      apply (rget_lsf_pairs st w (lsf_nodes b st) qv bv rv_ k I).
+    - apply negb_true_iff. rewrite <- E. unfold finl.
+      change [nl] with (seg_text (SSub [nl])).
+      replace (segs_text (map (final_seg (tsub_lsf c) (bsub_lsf c)) ps) ++ seg_text (SSub [nl]))
+        with (segs_text (map (final_seg (tsub_lsf c) (bsub_lsf c)) ps ++ [SSub [nl]])).
+      2:{ rewrite segs_text_app. reflexivity. }
+      rewrite contains_var_segs.
+      + rewrite existsb_app. rewrite final_no_var. reflexivity.
+      + apply segs_ok_snoc; [|reflexivity].
+        apply (final_seg_ok (par_lsf (addl_args st)) (tsub_lsf c)); auto.
+        * intros f TW. apply par_tok_lsf; auto.
+        * intros f TW. apply tsub_lsf_ok; auto.
+        * unfold bsub_lsf. apply (jt_sub_ok c HP LP). apply procs_nodollar.
+    - rewrite <- E. unfold finl. apply match_body_final.
+      + reflexivity.
+      + intros p I. apply (launch_ok_final_lsf c HP LP BE NK6c ps); auto.
+  Qed.
+End LsfScript2.
+
+(** * the theorem *)
+Lemma lsf_body_eq : forall cmd, format lsf_body (pos1 cmd) = Ok (nl :: nl :: cmd ++ [nl]).
+Proof. intros. unfold lsf_body, pos1. simpl. rewrite ?app_nil_r. reflexivity. Qed.
+Lemma lsf_local_header_eq : forall b, format lsf_local_header [(s "0", lsf_exec b)] = Ok (shebang_of b).
+Proof. intros. unfold lsf_local_header, shebang_of. simpl. rewrite ?app_nil_r. reflexivity. Qed.
+Lemma lsf_name_ok : forall tpl n, tpl = lsf_script_name \/ tpl = lsf_restart_name ->
+  exists nm, format tpl (pos2 n lsf_extension) = Ok nm.
+Proof. intros tpl n [E|E]; subst; simpl; eexists; reflexivity. Qed.
+
+Theorem lsf_holds : forall c, H15 c = true -> c_be c = Lsf ->
+  (schedulable (c_step c) = true -> K6_lsf_header c = false /\ K6_lsf_nodes_only c = false) ->
+  C15_holds c (run_model c) = true.
+Proof.
+  intros c H BE K6.
+  pose proof (H15_unpack c H) as HP. pose proof (batch_unpack _ _ (hp_batch c HP)) as BP.
+  assert (LP : lsf_parts c).
+  { apply lsf_unpack. pose proof (hp_lsf c HP) as L. rewrite BE in L. simpl in L. exact L. }
+  destruct (batch_req _ _ BP) as [vh [vb [vq [Hh [Hb [Hq [Sb Sq]]]]]]]. rewrite BE; discriminate.
+  set (st := c_step c) in *. set (b := c_batch c) in *.
+  unfold run_model. rewrite BE. fold st b. unfold write_lsf.
+  rewrite (batch_lsf_eq b vh vb vq) by auto. cbn [bind].
+  destruct (schedulable st) eqn:SC.
+  - (* a scheduled step *)
+    destruct (K6 eq_refl) as [K6b K6c].
+    unfold st at 1 2. rewrite (sched_cmd_lsf c HP LP BE K6c). fold st. rewrite SC.
+    destruct (alloc_rejected st (c_cmd c)) eqn:R1.
+    { unfold C15_holds. rewrite BE. fold st. rewrite SC. unfold rejected. fold st. rewrite R1. reflexivity. }
+    destruct (alloc_rejected st (c_restart c)) eqn:R2.
+    { unfold C15_holds. rewrite BE. fold st. rewrite SC. unfold rejected. fold st. rewrite R2. rewrite orb_true_r. reflexivity. }
+    assert (RJ : rejected c = false) by (unfold rejected; fold st; rewrite R1, R2; reflexivity).
+    cbn [bind]. cbv beta iota.
+    destruct (lsf_name_ok lsf_script_name (st_name st) (or_introl eq_refl)) as [nm1 N1]. rewrite N1. cbn [bind].
+    destruct (lsf_wall_facts c HP LP) as [w [Hw [Hw_nil [Hw_safe Hw_ok]]]]. fold st b in Hw, Hw_nil, Hw_safe, Hw_ok.
+    unfold header_lsf. rewrite (header_lines_lsf_eq b st vh vb vq Hh Hb Hq w Hw). cbn [bind].
+    rewrite lsf_body_eq. cbn [bind].
+    set (lines := lsf_lines b st vh vb vq w).
+    set (cmd' := segs_text (map (final_seg (tsub_lsf c) (bsub_lsf c)) (c_cmd c))).
+    set (rst' := segs_text (map (final_seg (tsub_lsf c) (bsub_lsf c)) (c_restart c))).
+    assert (G1 : lsf_script_ok c (c_cmd c) (join [nl] lines ++ nl :: nl :: cmd' ++ [nl]) = true).
+    { apply (lsf_script_good c HP LP BP BE K6b K6c vh vb vq) with (w := w); auto.
+      - apply (hp_cmd_wf c HP). - apply (hp_cmd_start c HP). - intros X. rewrite X. reflexivity. }
+    unfold restart_part.
+    assert (CRd : c_restart c = [] \/ c_restart c <> []) by (destruct (c_restart c); [left|right]; congruence).
+    destruct CRd as [CR|CR].
+    + assert (RS : st_restart st = []).
+      { pose proof (hp_restart c HP) as E. fold st in E. rewrite <- E, CR. reflexivity. }
+      assert (Z : rst' = []) by (unfold rst'; rewrite CR; reflexivity). rewrite Z. cbn [bind].
+      unfold C15_holds. rewrite BE. apply script_ok_sched_lsf; auto. fold st. rewrite RS. exact I.
+    + assert (SR : starts_cmd (c_restart c) = true).
+      { pose proof (hp_restart_start c HP) as X. destruct (c_restart c); auto; congruence. }
+      assert (G2 : lsf_script_ok c (c_restart c) (join [nl] lines ++ nl :: nl :: rst' ++ [nl]) = true).
+      { apply (lsf_script_good c HP LP BP BE K6b K6c vh vb vq) with (w := w); auto.
+        - apply (hp_restart_wf c HP). - intros X. rewrite X. apply orb_true_r. }
+      assert (NE : rst' <> []).
+      { destruct (finl_start c (c_restart c)) as [c0 [t [E CS]]]; auto.
+        { apply (hp_restart_wf c HP). }
+        intro Z. unfold finl in E. fold rst' in E. rewrite Z in E. simpl in E.
+        inversion E. subst c0. discriminate CS. }
+      assert (RS : exists r0 r1, st_restart st = r0 :: r1).
+      { pose proof (hp_restart c HP) as E. fold st in E. destruct (st_restart st) eqn:SRs; eauto.
+        apply pieces_text_nil in E; auto. congruence. apply (hp_restart_wf c HP). }
+      destruct RS as [r0 [r1 RS]].
+      destruct rst' as [|x y] eqn:RR. congruence. rewrite <- RR in *.
+      destruct (lsf_name_ok lsf_restart_name (st_name st) (or_intror eq_refl)) as [nm2 N2]. rewrite N2. cbn [bind].
+      rewrite lsf_body_eq. cbn [bind].
+      unfold C15_holds. rewrite BE. apply script_ok_sched_lsf; auto. fold st. rewrite RS. exact G2.
+  - (* a local step *)
+    assert (SCMD : scheduler_command (par_lsf (addl_args st)) st = Ok (false, st_cmd st, st_restart st)).
+    { unfold scheduler_command. unfold st. rewrite (run_get_nodes c), (run_get_procs c).
+      rewrite (schedulable_truthy c HP). fold st. rewrite SC. reflexivity. }
+    rewrite SCMD. cbn [bind]. cbv beta iota.
+    destruct (lsf_name_ok lsf_script_name (st_name st) (or_introl eq_refl)) as [nm1 N1]. rewrite N1. cbn [bind].
+    rewrite lsf_local_header_eq. cbn [bind]. rewrite lsf_body_eq. cbn [bind].
+    assert (G1 : verbatim_ok c (st_cmd st) (shebang_of b ++ nl :: nl :: st_cmd st ++ [nl]) = true).
+    { pose proof (hp_cmd c HP) as E. fold st in E. rewrite <- E. apply verbatim_good; auto.
+      apply (hp_cmd_wf c HP). apply (hp_cmd_start c HP). }
+    unfold restart_part.
+    destruct (st_restart st) as [|r0 r1] eqn:RS.
+    + cbn [bind]. unfold C15_holds. rewrite BE. apply script_ok_local; auto. fold st. rewrite RS. exact I.
+    + rewrite <- RS.
+      destruct (lsf_name_ok lsf_restart_name (st_name st) (or_intror eq_refl)) as [nm2 N2]. rewrite N2. cbn [bind].
+      rewrite lsf_body_eq. cbn [bind].
+      assert (G2 : verbatim_ok c (st_restart st) (shebang_of b ++ nl :: nl :: st_restart st ++ [nl]) = true).
+      { pose proof (hp_restart c HP) as E. fold st in E. rewrite <- E. apply verbatim_good; auto.
+        apply (hp_restart_wf c HP).
+        pose proof (hp_restart_start c HP) as X. destruct (c_restart c) eqn:CR; auto.
+        unfold pieces_text in E. simpl in E. rewrite RS in E. discriminate. }
+      unfold C15_holds. rewrite BE. apply script_ok_local; auto. fold st. rewrite RS. rewrite <- RS. exact G2.
+Qed.
+
+(** * the named statements for LSF *)
+Definition lsf_header_reads (c : case) (text : str) : Prop :=
+  first_line text = shebang_of (c_batch c) /\
+  (forall k, In k lsf_header_keys -> read_bsub text k = effective_lsf (c_batch c) (c_step c) k) /\
+  lsf_walltime_ok (effective (c_batch c) (c_step c) RWalltime) (read_bsub text RWalltime) = true /\
+  (forall k, In k (RWalltime :: lsf_header_keys) -> (count_key k (read_bsub_all text) <= 1)%nat).
+Definition lsf_launcher_reads (c : case) (ps : list piece) (text : str) : Prop :=
+  containsb launcher_var (script_body text) = false /\
+  match_body (launch_ok_lsf (c_step c)) (ps ++ [PText [nl]]) (script_body text) = true.
+
+Lemma lsf_script_ok_reads : forall c ps text, lsf_script_ok c ps text = true ->
+  lsf_header_reads c text /\ lsf_launcher_reads c ps text.
+Proof.
+  intros c ps text H. unfold lsf_script_ok in H.
+  repeat (apply andb_true_iff in H; destruct H as [H ?]).
+  apply str_eqb_eq in H. apply negb_true_iff in H1.
+  rewrite forallb_forall in H4. rewrite forallb_forall in H2.
+  split; [split; [auto|split; [|split; auto]]|split; auto].
+  - intros k I. apply opt_eqb_eq. auto.
+  - intros k I. apply Nat.leb_le. auto.
+Qed.
+
+Lemma C15_lsf_sched_lemma : forall c, H15 c = true -> c_be c = Lsf ->
+  K6_lsf_header c = false -> K6_lsf_nodes_only c = false -> schedulable (c_step c) = true ->
+  (rejected c = true /\ run_model c = OExc Diag) \/
+  (rejected c = false /\ exists sc, run_model c = OScript sc /\ sc_sched sc = true
+     /\ lsf_header_reads c (sc_text sc) /\ lsf_launcher_reads c (c_cmd c) (sc_text sc)
+     /\ match st_restart (c_step c), sc_restart sc with
+        | [], None => True
+        | _ :: _, Some (_, rt) => lsf_header_reads c rt /\ lsf_launcher_reads c (c_restart c) rt
+        | _, _ => False
+        end).
+Proof.
+  intros c H BE K6b K6c SC.
+  assert (Hh : C15_holds c (run_model c) = true) by (apply lsf_holds; auto).
+  destruct (run_model c) as [e|sc].
+  - left. destruct e; simpl in Hh; try discriminate.
+    repeat (apply andb_true_iff in Hh; destruct Hh as [Hh ?]). auto.
+  - right. simpl in Hh. rewrite BE in Hh. unfold script_ok in Hh. cbv zeta in Hh.
+    rewrite SC, BE in Hh. cbn [negb orb backend_eqb] in Hh.
+    repeat (apply andb_true_iff in Hh; destruct Hh as [Hh ?]).
+    apply andb_true_iff in H1. destruct H1 as [RJ SO].
+    apply negb_true_iff in RJ. split; auto. exists sc.
+    destruct (lsf_script_ok_reads _ _ _ SO) as [A B].
+    split; [auto|]. split; [destruct (sc_sched sc); simpl in *; congruence|]. split; [exact A|]. split; [exact B|].
+    destruct (st_restart (c_step c)); destruct (sc_restart sc) as [[rn rt]|]; auto; try discriminate.
+    apply lsf_script_ok_reads. auto.
+Qed.
+
+Lemma C15_ok_lsf : forall c, c_be c = Lsf -> K6_lsf_header c = false -> K6_lsf_nodes_only c = false ->
+  C15_ok c (run_model c) = true.
+Proof.
+  intros c BE K6b K6c. unfold C15_ok. destruct (H15 c) eqn:H; auto. simpl. apply lsf_holds; auto.
+Qed.
+
+Lemma C15_total_lsf_lemma : forall c, H15 c = true -> c_be c = Lsf ->
+  (schedulable (c_step c) = true -> K6_lsf_header c = false /\ K6_lsf_nodes_only c = false) ->
+  run_model c <> OExc Internal.
+Proof.
+  intros c H BE K6 X. pose proof (lsf_holds c H BE K6) as Hh. rewrite X in Hh. discriminate Hh.
+Qed.
